@@ -135,6 +135,15 @@ def gen_case(rng, tier, idx):
             if key in c and c["t"] < st.get(c[key], 0):
                 c["t"] = min(T - 1, st[c[key]] + c["t"] % 5)
     changes = [c for c in changes if all(c["t"] >= st.get(c.get(k, -1), 0) for k in ("m", "m2"))]
+    if rng.random() < 0.3:
+        # a shock (or a parameter change) exactly one or two generation chunks after the last change point, i.e.
+        # exactly on the horizon up to which values exist when it happens
+        last = max([c["t"] for c in changes] + [0])
+        t = last + 100 * rng.choice([1, 1, 2])
+        m = rng.choice(mk)["id"]
+        if t < T and t >= st.get(m, 0):
+            changes.append({"t": t, "what": "shock", "m": m, "v": rng.choice([0.5, 0.7, 1.4])} if rng.random() < 0.7 else
+                           {"t": t, "what": "drift", "m": m, "v": rng.choice([0.003, -0.003])})
     changes.sort(key=lambda c: c["t"])
     return {"kind": "walk", "markets": mk, "corr": pairs, "T": T, "changes": changes, "seed": rng.randrange(1 << 30)}
 
